@@ -239,6 +239,8 @@ def cmd_check(prop, tier, nruns=None, survey=False):
             'runs': done,
             'runs_requested': n,
             'simulated_steps': steps,
+            'simulated_time': ('not applicable: the library has no clocks, timers or deadlines; a run is '
+                               'measured in steps (one API call / restart / fault = one step)'),
             'runs_per_hour': int(done / wall * 3600) if wall > 0 else 0,
             'distinct_event_logs': len(digests),
             'distinct_ref_states_estimate': 16 * len(states),
